@@ -65,23 +65,26 @@ const KINDS: [Kind; 3] = [Kind::ShapeReaderShx, Kind::Complete, Kind::ShapeReade
 #[derive(Clone, Debug)]
 pub struct Case {
     pub kind: Kind,
-    pub equal_sizes: bool,
+    /// 0: records of pairwise different sizes, 1: equal sizes (both as the library writes them),
+    /// 2: fillers before / between the records and physical order [2,0,1] (RefCodec-built), sources
+    /// that return at most 3 bytes per read
+    pub layout: u8,
     pub ty: Ty,
     pub ops: Vec<ROp>,
 }
 
 impl Case {
     fn from_hist(h: &Hist, types: &[Ty]) -> Case {
-        Case { kind: KINDS[h[0] as usize], equal_sizes: h[1] == 1, ty: types[h[2] as usize], ops: h[CFG..].iter().map(|b| decode(*b)).collect() }
+        Case { kind: KINDS[h[0] as usize], layout: h[1], ty: types[h[2] as usize], ops: h[CFG..].iter().map(|b| decode(*b)).collect() }
     }
     pub fn to_json(&self) -> Value {
-        json!({"reader": format!("{:?}", self.kind), "equal_sizes": self.equal_sizes, "ty": self.ty.name(),
+        json!({"reader": format!("{:?}", self.kind), "layout": self.layout, "ty": self.ty.name(),
                "ops": self.ops.iter().map(op_name).collect::<Vec<_>>()})
     }
     pub fn from_json(v: &Value) -> Option<Case> {
         Some(Case {
             kind: *KINDS.iter().find(|k| format!("{:?}", k) == v.get("reader").and_then(|x| x.as_str()).unwrap_or(""))?,
-            equal_sizes: v.get("equal_sizes")?.as_bool()?,
+            layout: v.get("layout").and_then(|x| x.as_u64()).unwrap_or(0) as u8,
             ty: Ty::from_name(v.get("ty")?.as_str()?)?,
             ops: v.get("ops")?.as_array()?.iter().map(|x| op_from(x.as_str()?)).collect::<Option<Vec<_>>>()?,
         })
@@ -96,7 +99,8 @@ pub struct Fixture {
     pub recs: Vec<MRead>,
 }
 
-pub fn fixture(ty: Ty, equal_sizes: bool) -> Fixture {
+pub fn fixture(ty: Ty, layout: u8) -> Fixture {
+    let equal_sizes = layout == 1;
     let shapes: Vec<MShape> = if equal_sizes || ty.family() == Family::Point {
         let base = crate::structs::reduced_set(ty)[0].clone();
         (0..N)
@@ -121,7 +125,45 @@ pub fn fixture(ty: Ty, equal_sizes: bool) -> Fixture {
             write_pair(&mut w, s, &table::good_row(i)).expect("fixture write");
         }
     }
-    Fixture { shp: a.data(), shx: b.data(), dbf: c.data(), recs: libs.iter().map(from_lib).collect() }
+    let recs: Vec<MRead> = libs.iter().map(from_lib).collect();
+    if layout == 2 {
+        // the same records, stored out of order with fillers, located by the index alone
+        use crate::refmodel::codec::{self, MBody, MRecord};
+        let enc_rec = |i: usize| -> Vec<u8> {
+            let r = &recs[i];
+            let body = MBody::Shape { shape: r.shape.clone(), bbox: r.bbox.unwrap_or(codec::true_bbox(&r.shape)), with_m: true };
+            let mut f = vec![];
+            let content = codec::encode_content(&body, &mut f, 0, 0);
+            let mut d = vec![];
+            d.extend((i as i32 + 1).to_be_bytes());
+            d.extend(((content.len() / 2) as i32).to_be_bytes());
+            d.extend(content);
+            let _ = MRecord { number: 0, body: MBody::Null };
+            d
+        };
+        let order = [2usize, 0, 1];
+        let gaps = [6usize, 14, 0, 8];
+        let mut body: Vec<u8> = vec![];
+        let mut offs = [0usize; 3];
+        let mut lens = [0usize; 3];
+        for (slot, &i) in order.iter().enumerate() {
+            body.extend(std::iter::repeat(0xEEu8).take(gaps[slot]));
+            let e = enc_rec(i);
+            offs[i] = 100 + body.len();
+            lens[i] = e.len() - 8;
+            body.extend(e);
+        }
+        body.extend(std::iter::repeat(0xEEu8).take(gaps[3]));
+        let mut shp = codec::encode_header(((100 + body.len()) / 2) as i32, ty.code(), &[0.0; 8]);
+        shp.extend(body);
+        let mut shx = codec::encode_header(50 + 12, ty.code(), &[0.0; 8]);
+        for i in 0..3 {
+            shx.extend(((offs[i] / 2) as i32).to_be_bytes());
+            shx.extend(((lens[i] / 2) as i32).to_be_bytes());
+        }
+        return Fixture { shp, shx, dbf: c.data(), recs };
+    }
+    Fixture { shp: a.data(), shx: b.data(), dbf: c.data(), recs }
 }
 
 /// One observed answer.
@@ -140,6 +182,13 @@ fn which(recs: &[MRead], got: &MRead) -> Result<usize, String> {
 
 pub fn observe(case: &Case, fx: &Fixture) -> Vec<Ans> {
     let mut out = vec![];
+    let src = |b: &Vec<u8>| {
+        let d = Dev::quiet(b.clone());
+        if case.layout == 2 {
+            d.set_chunking(crate::dev::Chunking::Uniform(3));
+        }
+        d
+    };
     let collect_items = |it: &mut dyn Iterator<Item = Result<usize, String>>, j: usize| -> Ans {
         let mut v = vec![];
         let mut ended = false;
@@ -158,9 +207,9 @@ pub fn observe(case: &Case, fx: &Fixture) -> Vec<Ans> {
     match case.kind {
         Kind::ShapeReaderShx | Kind::ShapeReaderNoShx => {
             let mut r = if case.kind == Kind::ShapeReaderShx {
-                ShapeReader::with_shx(Dev::quiet(fx.shp.clone()), Dev::quiet(fx.shx.clone())).expect("open")
+                ShapeReader::with_shx(src(&fx.shp), src(&fx.shx)).expect("open")
             } else {
-                ShapeReader::new(Dev::quiet(fx.shp.clone())).expect("open")
+                ShapeReader::new(src(&fx.shp)).expect("open")
             };
             for op in &case.ops {
                 out.push(match op {
@@ -176,7 +225,7 @@ pub fn observe(case: &Case, fx: &Fixture) -> Vec<Ans> {
             }
         }
         Kind::Complete => {
-            let sr = ShapeReader::with_shx(Dev::quiet(fx.shp.clone()), Dev::quiet(fx.shx.clone())).expect("open");
+            let sr = ShapeReader::with_shx(src(&fx.shp), src(&fx.shx)).expect("open");
             let dr = shapefile::dbase::Reader::new(Dev::quiet(fx.dbf.clone())).expect("open dbf");
             let mut r = Reader::new(sr, dr);
             let pair = |x: Result<(Shape, shapefile::dbase::Record), shapefile::Error>, recs: &[MRead]| -> Result<usize, String> {
@@ -310,7 +359,7 @@ fn enabled(h: &Hist) -> Vec<u8> {
 fn selftest(fx: &Fixture) -> (u64, u64) {
     let mut inj = 0;
     let mut det = 0;
-    let case = Case { kind: Kind::ShapeReaderShx, equal_sizes: false, ty: Ty::Polyline, ops: vec![ROp::Seek(1), ROp::Iter(1), ROp::Iter(ALL), ROp::Nth(2), ROp::Iter(ALL), ROp::Count] };
+    let case = Case { kind: Kind::ShapeReaderShx, layout: 0, ty: Ty::Polyline, ops: vec![ROp::Seek(1), ROp::Iter(1), ROp::Iter(ALL), ROp::Nth(2), ROp::Iter(ALL), ROp::Count] };
     // a conforming answer sheet, written by hand from the statement
     let good = vec![
         Ans::Unit(Ok(())),
@@ -356,12 +405,16 @@ pub fn check(tier: Tier) -> i32 {
     let types: Vec<Ty> = tier.pick(vec![Ty::PointM, Ty::Polyline, Ty::PolygonZ, Ty::Multipatch], vec![Ty::Point, Ty::PointZ, Ty::Polyline, Ty::PolylineM, Ty::PolygonZ, Ty::MultipointZ, Ty::Multipatch]);
     let mut fxs = vec![];
     for t in &types {
-        fxs.push((fixture(*t, false), fixture(*t, true)));
+        fxs.push([fixture(*t, 0), fixture(*t, 1), fixture(*t, 2)]);
     }
     let fxs = Arc::new(fxs);
     let mut inits = vec![];
     for k in 0..3u8 {
-        for e in 0..2u8 {
+        for e in 0..3u8 {
+            // the gapped / permuted layout needs the index
+            if e == 2 && k == 2 {
+                continue;
+            }
             for t in 0..types.len() as u8 {
                 inits.push(vec![k, e, t]);
             }
@@ -376,7 +429,7 @@ pub fn check(tier: Tier) -> i32 {
         Arc::new(enabled),
         Arc::new(move |h, ctx| {
             let case = Case::from_hist(h, &ty2);
-            let fx = if case.equal_sizes { &f2[h[2] as usize].1 } else { &f2[h[2] as usize].0 };
+            let fx = &f2[h[2] as usize][case.layout as usize];
             let mut hh = Fnv::new();
             hh.bytes(h);
             match catch(|| observe(&case, fx)) {
@@ -400,7 +453,7 @@ pub fn check(tier: Tier) -> i32 {
             }
         }),
     );
-    let st = selftest(&fxs[0].0);
+    let st = selftest(&fxs[0][0]);
     let agg = merge(res.ctxs);
     finish(
         RunInfo {
@@ -408,7 +461,7 @@ pub fn check(tier: Tier) -> i32 {
             tier,
             level: "model_checking",
             engine: "E1 stateright BFS over reader call histories on the real ShapeReader / Reader; oracle = set-valued cursor model (RefReader)",
-            rule: "every sequence up to the depth bound over {Iter(0), Iter(1), Iter(2), Iter(all), Nth(0..3), Seek(0..3), Count} (ShapeReader with index, 13 actions), {Iter*, Seek*, Count, ReadAll} (complete Reader, 10 actions), {Iter*, Nth(0), Seek(0), Count} (ShapeReader without index: the last three must answer MissingIndexFile) x files of 3 records with pairwise different sizes and with equal sizes x types; non-trivial = >= 2 operations",
+            rule: "every sequence up to the depth bound over {Iter(0), Iter(1), Iter(2), Iter(all), Nth(0..3), Seek(0..3), Count} (ShapeReader with index, 13 actions), {Iter*, Seek*, Count, ReadAll} (complete Reader, 10 actions), {Iter*, Nth(0), Seek(0), Count} (ShapeReader without index: the last three must answer MissingIndexFile) x files of 3 records with pairwise different sizes, with equal sizes, and (readers with an index) stored out of order with fillers between them behind sources returning at most 3 bytes per read, x types; non-trivial = >= 2 operations",
             bounds: json!({"depth": depth, "records": N, "types": types.iter().map(|t| t.name()).collect::<Vec<_>>()}),
             exhaustive: true,
             assumptions: vec!["the model is non-deterministic after a partial iteration exactly as the statement is: a further iteration may continue or restart".into()],
@@ -427,7 +480,7 @@ pub fn replay(v: &Value) -> Vec<(String, String)> {
     match Case::from_json(v) {
         None => vec![("bad-replay-file".into(), "cannot parse case".into())],
         Some(case) => {
-            let fx = fixture(case.ty, case.equal_sizes);
+            let fx = fixture(case.ty, case.layout);
             match catch(|| observe(&case, &fx)) {
                 Ok(a) => judge(&case, &a),
                 Err(p) => vec![(format!("{:?}:{}", case.kind, p.sig()), p.msg)],
